@@ -679,11 +679,6 @@ package proxy
 //@ extern (ShardManager).TerminatePreviousLocalReceiver@(*proxyStreamReceiver).Run
 //@   ensures r.prevTerminated
 //@   assigns r.prevTerminated
-// registeredReceiver / registeredCanceller: whose entry currently sits in the registry (unknown to the caller:
-// another incarnation may have replaced it at any time)
-//@ ufunc registeredReceiver(m ShardManager, shard history.ClusterShardID) *proxyStreamReceiver
-//@ ufunc registeredCanceller(m ShardManager, shard history.ClusterShardID) *proxyStreamReceiver
-
 // Sender incarnation: the delivery channel is registered before the shard is announced (so the watermark replay
 // triggered by the announcement reaches the new channel), and the deferred clean-up names exactly this
 // incarnation's channel and registration time.
@@ -701,8 +696,8 @@ package proxy
 //@   ensures @C04_unconfirmed_entries_handed_back: s.idRing == nil || s.idRing.size == 0 || s.sourcesReset
 
 // Receiver incarnation: the predecessor is cancelled and evicted before this incarnation registers anything; the
-// aggregation state is reset before the workers start; the deferred clean-up must remove only entries that are
-// still this incarnation's.
+// aggregation state is reset before the workers start; the deferred clean-up names this incarnation, and the
+// registry removes an entry only while it is still this incarnation's (defect D8, fixed).
 //@ contract (*proxyStreamReceiver).Run
 //@   props C08 C04
 //@   requires !(r.sourceShardID.ClusterID == 0 && r.sourceShardID.ShardID == 0)
@@ -710,8 +705,9 @@ package proxy
 //@   callpre SetLocalAckChan: @predecessor_evicted_first: r.prevTerminated && $ackChan == r.ackChan && $shardID == r.sourceShardID
 //@   callpre Add: @aggregation_reset: r.ackByTarget != nil && len(r.ackByTarget) == 0 && r.lastSentMin == 0
 //@   callpre RemoveLocalAckChan: @own_channel: $expectedChan == r.ackChan && $shardID == r.sourceShardID
-//@   callpre UnregisterActiveReceiver: @C08_own_entry: registeredReceiver(r.shardManager, r.sourceShardID) == r
-//@   callpre RemoveLocalReceiverCancelFunc: @C08_own_entry: registeredCanceller(r.shardManager, r.sourceShardID) == r
+//@   callpre SetLocalReceiverCancelFunc: @C08_own_entry: $owner == r && $shardID == r.sourceShardID
+//@   callpre UnregisterActiveReceiver: @C08_own_entry: $receiver == r && $sourceShardID == r.sourceShardID
+//@   callpre RemoveLocalReceiverCancelFunc: @C08_own_entry: $owner == r && $shardID == r.sourceShardID
 
 // C04 (i): both halves of a routing stream get the SAME shutdown latch (the spawned literals are executed on a
 // forked state, so the two Run calls are checked against the latch variable of streamRouting itself).
@@ -909,3 +905,20 @@ package proxy
 //@   requires s.shardManager != nil
 //@   callpre UnregisterSender: @own_sender: $sender == s && $peerNodeName == old(s.peerNodeName) && $targetShard == old(s.targetShardID) && $sourceShard == old(s.sourceShardID)
 //@   callpre RegisterSender: @self: $sender == s
+
+// C08: the receiver registries remove an entry only while it is still the caller's (defect D8, fixed: both were
+// unconditional); evicting a predecessor (TerminatePreviousLocalReceiver) stays unconditional by design.
+//@ guards shardManagerImpl.localReceiverCancelFuncsMu: *localReceiverCancelOwner
+//@ contract (*shardManagerImpl).UnregisterActiveReceiver
+//@   props C08
+//@   deletepre activeReceivers: @only_own_entry: $key == sourceShardID && $present && $map[$key] == receiver
+//@ contract (*shardManagerImpl).RemoveLocalReceiverCancelFunc
+//@   props C08
+// (the two maps have different Go types and therefore cannot be the same object; the untyped heap model needs to be told)
+//@   requires sm.localReceiverCancelFuncs != sm.localReceiverCancelOwner
+//@   deletepre localReceiverCancelFuncs: @only_own_entry: $key == shardID && shardID in sm.localReceiverCancelOwner && sm.localReceiverCancelOwner[shardID] == owner
+//@   deletepre localReceiverCancelOwner: @only_own_entry: $key == shardID && $present && $map[$key] == owner
+//@ contract (*shardManagerImpl).SetLocalReceiverCancelFunc
+//@   props C08
+//@   requires sm.localReceiverCancelFuncs != nil && sm.localReceiverCancelOwner != nil
+//@   ensures @newest_registered: shardID in sm.localReceiverCancelOwner && sm.localReceiverCancelOwner[shardID] == owner && shardID in sm.localReceiverCancelFuncs
